@@ -51,6 +51,8 @@ pub struct BackendEnv {
     pub objects: Option<Objects>,
     pub git_path: Option<PathBuf>,
     pub http_url: Option<String>,
+    pub httpd: Option<crate::httpd::Httpd>,
+    pub rt: Option<Rc<tokio::runtime::Runtime>>,
     pub client_id: Uuid,
     /// copies share the process-wide hooks of the original and must not remove them
     pub forked: bool,
@@ -88,7 +90,14 @@ impl BackendEnv {
             // failpoints between the backend's internal steps are fault points of the run
             taskchampion::server::verif_failpoint::set_handler(Some(Box::new(|name| crate::exec::fault_point(name) != Decision::Proceed)));
         }
-        BackendEnv { kind, root: root.to_path_buf(), objects, git_path: None, http_url: None, client_id: Uuid::from_u128(0xc11e_0000_0000_4000_8000_000000000001), forked: false }
+        let (httpd, rt) = if kind == B_HTTP {
+            let h = crate::httpd::Httpd::start(crate::httpd::HttpState::new(mix(seed, "httpd", 0), (seed % 3) as u8)).expect("start http listener");
+            let rt = tokio::runtime::Builder::new_current_thread().enable_all().build().expect("tokio runtime");
+            (Some(h), Some(Rc::new(rt)))
+        } else {
+            (None, None)
+        };
+        BackendEnv { kind, root: root.to_path_buf(), objects, git_path: None, http_url: httpd.as_ref().map(|h| h.url()), httpd, rt, client_id: Uuid::from_u128(0xc11e_0000_0000_4000_8000_000000000001), forked: false }
     }
 
     /// Open handle `k` (a fresh handle on the same backend; for git-remote: clone `k`).
@@ -106,7 +115,10 @@ impl BackendEnv {
                     .into_server()
                     .await
             }
-            B_HTTP => ServerConfig::Remote { url: self.http_url.clone().unwrap_or_default(), client_id: self.client_id, encryption_secret: SECRET.to_vec() }.into_server().await,
+            B_HTTP => {
+                let inner = ServerConfig::Remote { url: self.http_url.clone().unwrap_or_default(), client_id: self.client_id, encryption_secret: SECRET.to_vec() }.into_server().await?;
+                Ok(Box::new(HttpBridge { inner, rt: self.rt.clone().unwrap() }))
+            }
             _ => Err(Error::Server("no real backend".into())),
         }
     }
@@ -147,7 +159,8 @@ impl BackendEnv {
                 }
             }
         }
-        BackendEnv { kind: self.kind, root: new_root.to_path_buf(), objects, git_path: self.git_path.clone(), http_url: self.http_url.clone(), client_id: self.client_id, forked: true }
+        let httpd = self.httpd.as_ref().map(|h| crate::httpd::Httpd::start(h.state.lock().unwrap().clone()).expect("start http listener"));
+        BackendEnv { kind: self.kind, root: new_root.to_path_buf(), objects, git_path: self.git_path.clone(), http_url: httpd.as_ref().map(|h| h.url()), httpd, rt: self.rt.clone(), client_id: self.client_id, forked: true }
     }
 }
 
@@ -161,6 +174,29 @@ impl Drop for BackendEnv {
             taskchampion::server::verif::set_randint_source(None);
             OSW.with(|w| *w.borrow_mut() = None);
         }
+    }
+}
+
+/// reqwest needs a tokio reactor: each protocol call is driven to completion on a current-thread
+/// runtime (one request in flight at a time).
+pub struct HttpBridge {
+    inner: Box<dyn Server>,
+    rt: Rc<tokio::runtime::Runtime>,
+}
+
+#[async_trait(?Send)]
+impl Server for HttpBridge {
+    async fn add_version(&mut self, parent_version_id: VersionId, history_segment: HistorySegment) -> Result<(AddVersionResult, SnapshotUrgency)> {
+        self.rt.block_on(self.inner.add_version(parent_version_id, history_segment))
+    }
+    async fn get_child_version(&mut self, parent_version_id: VersionId) -> Result<GetVersionResult> {
+        self.rt.block_on(self.inner.get_child_version(parent_version_id))
+    }
+    async fn add_snapshot(&mut self, version_id: VersionId, snapshot: Snapshot) -> Result<()> {
+        self.rt.block_on(self.inner.add_snapshot(version_id, snapshot))
+    }
+    async fn get_snapshot(&mut self) -> Result<Option<(VersionId, Snapshot)>> {
+        self.rt.block_on(self.inner.get_snapshot())
     }
 }
 
@@ -413,7 +449,7 @@ pub fn gen_c08(seed: u64, i: u64, thorough: bool) -> Value {
     let s = mix(seed, "C08", i);
     let mut rng = Rng::new(s);
     // git costs ~20 ms per call: fewer and shorter runs there
-    let backend = *rng.pick(if thorough { &[B_LOCAL, B_CLOUD, B_GIT_LOCAL, B_GIT_REMOTE, B_LOCAL, B_CLOUD] } else { &[B_LOCAL, B_LOCAL, B_LOCAL, B_CLOUD, B_CLOUD, B_CLOUD, B_CLOUD, B_GIT_LOCAL, B_GIT_REMOTE, B_LOCAL, B_CLOUD, B_CLOUD, B_LOCAL, B_LOCAL, B_LOCAL, B_CLOUD, B_CLOUD, B_CLOUD, B_CLOUD, B_LOCAL, B_CLOUD, B_LOCAL, B_CLOUD, B_CLOUD] });
+    let backend = *rng.pick(if thorough { &[B_LOCAL, B_CLOUD, B_GIT_LOCAL, B_GIT_REMOTE, B_LOCAL, B_CLOUD, B_HTTP] } else { &[B_LOCAL, B_LOCAL, B_LOCAL, B_CLOUD, B_CLOUD, B_CLOUD, B_CLOUD, B_GIT_LOCAL, B_GIT_REMOTE, B_LOCAL, B_CLOUD, B_CLOUD, B_LOCAL, B_LOCAL, B_LOCAL, B_CLOUD, B_CLOUD, B_CLOUD, B_CLOUD, B_LOCAL, B_CLOUD, B_LOCAL, B_CLOUD, B_HTTP] });
     let git = backend == B_GIT_LOCAL || backend == B_GIT_REMOTE;
     let raw = rng.chance(2, 3);
     let nodes = if backend == B_GIT_LOCAL { 1 } else { *rng.pick(&[1usize, 2, 2, 3]) };
